@@ -318,6 +318,8 @@ class Check:
                     if op["op"] == "build":
                         aborted_teals.add(op["h"])
             s1 = ev.get("s1", {})
+            if "free" in s1:
+                st["s1_order_free"] = bool(s1["free"])
             st["s1_nonid"] += s1.get("nonid", 0)
             st["s1_multi"] += s1.get("multi", 0)
             for p in s1.get("perms", []):
@@ -516,6 +518,7 @@ class Check:
             "faults_fired": dict(sorted(st["faults_fired"].items())),
             "distinct_fault_sites_fired": len(st["fault_sites_fired"]),
             "compared_ops_after_a_fired_fault": st["post_fault_compared"],
+            "s1_called_subroutines_order_taken_from_a_set_in_code_under_test": st.get("s1_order_free"),
             "s1_sets_with_2plus_elements": st["s1_multi"],
             "s1_non_identity_orders_applied": st["s1_nonid"],
             "s1_distinct_non_identity_orders": len(st["s1_perms"]),
